@@ -27,6 +27,8 @@ type PropConfig struct {
 	EntryPoints []string `json:"entry_points"`
 	// Composes: the property is a composition; its check also runs every target of these properties
 	Composes []string `json:"composes"`
+	// NasgenSkip: message structs the lemma generator is known not to cover (anything else it skips is reported)
+	NasgenSkip []string `json:"nasgen_skip"`
 }
 
 type Target struct {
@@ -151,7 +153,7 @@ func cmdCheck(args []string) int {
 		targets = append(targets, Target{Name: sp.Key(), Spec: sp})
 	}
 	for k, l := range p.lemmas {
-		if containsAny(l.Props, propSet) && l.Fn != nil {
+		if containsAny(l.Props, propSet) && l.Fn != nil && (l.Tier != "thorough" || *tier == "thorough") {
 			targets = append(targets, Target{Name: k, Lemma: l})
 		}
 	}
@@ -224,6 +226,25 @@ func cmdCheck(args []string) int {
 		if *verbose {
 			fmt.Fprintf(os.Stderr, "target %s: %d obligations (%.2fs) %s\n", t.Name, len(r.Obls), r.Secs, r.Err)
 		}
+	}
+	if contains(pc.Patterns, "free5gclib/nas/nasMessage") && *only == "" && *prop == "C08" {
+		// coverage of the generated lemmas: every message struct is either covered or on the recorded list
+		var ko []*Obligation
+		seen := map[string]bool{}
+		for _, n := range p.genNotes {
+			name, why, _ := strings.Cut(n, ": ")
+			seen[name] = true
+			ko = append(ko, kObl("nasgen", "covered."+name, contains(pc.NasgenSkip, name), "the lemma generator does not cover message "+name+": "+why))
+			if contains(pc.NasgenSkip, name) {
+				boundedNotesExtra = append(boundedNotesExtra, "message "+name+" is not covered by the generated round-trip lemmas: "+why)
+			}
+		}
+		for _, n := range pc.NasgenSkip {
+			if !seen[n] {
+				ko = append(ko, kObl("nasgen", "covered."+n, true, ""))
+			}
+		}
+		results = append(results, &TargetResult{Target: "nasgen-coverage", Obls: ko, Exec: NewExec(p)})
 	}
 	if len(pc.Structural) > 0 && *only == "" {
 		results = append(results, &TargetResult{Target: "structural:" + strings.Join(pc.Structural, ","), Obls: structuralObligations(p, *verif, pc.Structural, pc.EntryPoints), Exec: NewExec(p)})
@@ -542,6 +563,7 @@ func runTarget(p *Loaded, t Target, selRet int) (res *TargetResult) {
 
 var replayDirOverride string
 var boundedList []string
+var boundedNotesExtra []string
 
 type knownFinding struct {
 	Prop, Obl, What string
@@ -832,6 +854,8 @@ func report(p *Loaded, verif, prop, tier string, seed int, pc *PropConfig, resul
 			"bounded_checks_ok":          boundedOK,
 			"integer_semantics":          "bit-vectors of the Go width with wrap-around; arithmetic on Go int additionally carries R (no-wrap) obligations",
 			"unbound_contracts":          p.unbound,
+			"not_covered":                boundedNotesExtra,
+			"generated_lemmas":           generatedNote(p),
 		},
 		"assumptions": append(append([]string{}, pc.Assumes...), keys(assumed)...),
 	}
@@ -970,4 +994,17 @@ func findBoundedAll(p *Loaded, props []string) []boundedFn {
 		}
 	}
 	return out
+}
+
+func generatedNote(p *Loaded) string {
+	n := 0
+	for k := range p.lemmas {
+		if strings.Contains(k, "vcLemma_rt_") {
+			n++
+		}
+	}
+	if n == 0 {
+		return ""
+	}
+	return fmt.Sprintf("%d round-trip lemmas generated on this run from the type declarations of nasType / nasMessage of the tree under verification (cmd/govc/nasgen.go)", n)
 }
